@@ -21,7 +21,10 @@ Inductive case :=
     (* an include graph: Loader::load, and the worst of load / process / queries, on a
        FakeFileSystem; the commands on the same files of the real file system, `primitive
        flatten` (= load) first; the built binary, `primitive flatten` last *)
-| CmdCase (os bin : list outcome).               (* commands in-process / the built binary *)
+| CmdCase (os bin : list outcome)                (* commands in-process / the built binary *)
+| OracleCase (head_len w_head w_whole w_space_tail : nat).
+    (* unicode-width's width_cjk of HEAD, of HEAD ++ " " ++ TAIL and of " " ++ TAIL, HEAD being
+       digits and expression punctuation: the hypotheses of C06_format_total / C06_format_oracles *)
 
 Fixpoint rep (n : nat) (s : list N) : list N :=
   match n with O => [] | S k => s ++ rep k s end.
@@ -91,6 +94,11 @@ Definition classify (c : case) : list N :=
          let load_bin := match rev bin with f :: _ => [f] | [] => [] end in
          if forallb (outcome_eqb fake_load) (load_real ++ load_bin) then 0 else 1]
   | CmdCase os bin => [if existsb crash os || existsb crash bin then 2 else 0]
+  | OracleCase head_len w_head w_whole w_space_tail =>
+      (* below its length the printer's subtraction underflows; otherwise ascii_width_ok and
+         space_cut on this sample *)
+      [if Nat.ltb w_whole head_len then 2
+       else if Nat.eqb w_head head_len && Nat.eqb w_whole (head_len + w_space_tail) then 0 else 1]
   end.
 
 Definition verdicts (cs : list case) : list N := flat_map classify cs.
